@@ -5,6 +5,7 @@ import (
 	"sync/atomic"
 	"time"
 
+	"github.com/semihalev/sdns/internal/verifhook"
 	"github.com/semihalev/zlog/v2"
 )
 
@@ -97,6 +98,9 @@ func (cb *circuitBreaker) recordSuccess(server string) {
 
 // cleanup removes old failure records periodically.
 func (cb *circuitBreaker) cleanup() {
+	if !verifhook.Background() {
+		return
+	}
 	ticker := time.NewTicker(5 * time.Minute)
 	defer ticker.Stop()
 
